@@ -23,6 +23,7 @@ import SqiProofs.FiatLayer5
 import SqiProofs.FiatBytes1
 import SqiProofs.FiatBytes3
 import SqiProofs.FiatBytes5
+import SqiProofs.FpRefGen
 
 namespace SqiProps.C07
 open SqiModel.Gf SqiProofs.GfRef SqiProofs.GfMont SqiProofs.GfFp2
@@ -499,6 +500,35 @@ theorem ref_backend_refines_generated :
       SqiProofs.FiatLayer3.mul_val SqiProofs.FiatLayer3.square_val,
    genOps_refines .l5 SqiProofs.FiatLayer5.set_one_val SqiProofs.FiatLayer5.add_val SqiProofs.FiatLayer5.sub_val
       SqiProofs.FiatLayer5.mul_val SqiProofs.FiatLayer5.square_val⟩
+
+/-! ### the composites of src/gf/ref/gfx/fp.c by translation (tie T)
+
+`SqiGen.FpRef` is re-extracted from src/gf/ref/gfx/fp.c on every run by tools/translate/fpref.py (limb loops, accumulate loops,
+the bit loop of `fp_exp3div4`, calls, the `uint32_t` mask idioms; every integer variable carries its C width; C semantics of the
+emitted combinators: `SqiModel.FpRefSem`).  `generated = hand model` (`SqiProofs.FpRefGen`) for the functions listed below, so for
+them the chain is C text → generated definition → value-level model → `ZMod p` theorems, over the fiat primitives which are
+themselves translation + proof (`fiat_layer_refines_model_lvl*`).  Narrowing the accumulator of `fp_is_zero` to `uint32_t`, changing a
+loop bound, a mask or a call changes the generated text and these proofs stop building.
+Translated but NOT yet proved equal to the model (still tied by correspondence only): `fp_cswap`, `fp_neg` (SUBC borrow loop),
+`fp_sqrt` (uses `fp_neg`).  Not translated: `fp_copy`, `fp_encode`, `fp_decode`, `fp_decode_reduce` (byte buffers). -/
+theorem ref_composites_generated_eq_model {P : RefParams} (hL : IsLevel P) :
+    (∀ a, a < P.R → SqiGen.FpRef.fp_is_zero P a = Ref.fp_is_zero a) ∧
+    (∀ a b, a < P.R → b < P.R → SqiGen.FpRef.fp_is_equal P a b = Ref.fp_is_equal a b) ∧
+    (∀ d a0 a1 ctl, d < P.R → a0 < P.R → a1 < P.R → SqiGen.FpRef.fp_select P d a0 a1 ctl = Ref.fp_select P a0 a1 ctl) ∧
+    (∀ a, a < P.R → SqiGen.FpRef.fp_set_zero P a = Ref.fp_set_zero) ∧
+    (∀ a, SqiGen.FpRef.fp_set_one P a = Ref.fp_set_one P) ∧
+    (∀ x v, x < P.R → SqiGen.FpRef.fp_set_small P x v = Ref.fp_set_small P v) ∧
+    (∀ out a, SqiGen.FpRef.fp_exp3div4 P out a = Ref.fp_exp3div4 P a) ∧
+    (∀ a, SqiGen.FpRef.fp_inv P a = Ref.fp_inv P a) ∧
+    (∀ out a, SqiGen.FpRef.fp_half P out a = Ref.fp_half P a) ∧
+    (∀ a, a < P.p → SqiGen.FpRef.fp_is_square P a = Ref.fp_is_square P a) := by
+  have := hL.prime
+  have hV := hL.valid
+  exact ⟨SqiProofs.FpRefGen.fp_is_zero_eq P, SqiProofs.FpRefGen.fp_is_equal_eq P,
+    fun d a0 a1 ctl => SqiProofs.FpRefGen.fp_select_eq P d a0 a1 ctl, SqiProofs.FpRefGen.fp_set_zero_eq P,
+    SqiProofs.FpRefGen.fp_set_one_eq P, fun x v hx => SqiProofs.FpRefGen.fp_set_small_eq P hV.hn x v hx,
+    SqiProofs.FpRefGen.fp_exp3div4_eq P, SqiProofs.FpRefGen.fp_inv_eq P,
+    SqiProofs.FpRefGen.fp_half_eq hV, SqiProofs.FpRefGen.fp_is_square_eq hV⟩
 
 /-! ## x86 ("broadwell") back-end, value-level model `SqiModel.GfX86`
 
